@@ -129,4 +129,6 @@ pub use harness::*;
 pub mod harness2;
 pub use harness2::*;
 pub mod registry;
+#[cfg(kani)]
+mod std_assumptions;
 pub use registry::*;
